@@ -188,7 +188,7 @@ def handle (j : Json) : Json :=
         let re := injectBranching (spliceAll obs (unsplice gp))
         Json.mkObj [("root", jstr (((findRoot g).map (fun r => kindStr (g.kind r))).getD "?")),
           ("ordered", Json.bool g.ordered), ("wf", Json.bool (armsWF g)), ("arms", Json.arr arms.toArray),
-          ("resplice", Json.bool (canon re == canon gp)), ("spliceReady", Json.bool (spliceReady (unsplice gp))),
+          ("resplice", Json.bool (canon re == canon gp)), ("spliceReady", Json.bool (spliceReady (unsplice gp) (!obs.isEmpty))),
           ("invariant", Json.bool (invariantHolds g obs.length && invariantHolds re obs.length))])
       Json.mkObj [("route", jnat h), ("known", Json.bool info.isSome),
         ("chain", Json.arr (((info.map (·.chain)).getD []).map (fun m => jstr (s!"m{m.id}"))).toArray),
